@@ -91,7 +91,12 @@ func mkTx(e int, fee uint64, n int, redeemers int, ret *babbage.BabbageTransacti
 	case 5:
 		t := &conway.ConwayTransaction{}
 		t.Body.TxFee, t.Body.TxCollateral, t.Body.TxCollateralReturn = fee, collInputs(n), ret
-		t.WitnessSet.WsRedeemers.Redeemers = modern
+		// Conway still accepts redeemers in the legacy array form: either form, symbolically
+		if sym.Bool("redeemers_in_legacy_array_form") {
+			t.WitnessSet.WsRedeemers = conway.VerifLegacyRedeemers(redeemers)
+		} else {
+			t.WitnessSet.WsRedeemers.Redeemers = modern
+		}
 		return t
 	}
 	t := &dijkstra.DijkstraTransaction{}
